@@ -133,7 +133,7 @@ fn gen(ctx: &GenCtx, i: u64) -> Option<Run> {
             (true, Some(b)) if !r.chance(1, 16) => b,
             _ => {
                 let b = rb.builder_id();
-                rb.push(Op::NewBuilder { b, proto, layer, now_ns: Ns(now) });
+                rb.push(Op::NewBuilder { b, proto, layer, now_ns: Ns(now), hash_seed: r.next() });
                 let v = if vary { format!("m{}", r.below(1000)) } else { "same".to_string() };
                 rb.push(Op::BuilderOp { b, op: BOp::SetClaim(ClaimSpec::Custom { key: "data".into(), value: serde_json::json!(v) }) });
                 if let Some(f) = &footer {
